@@ -110,6 +110,14 @@ func init() {
 			out += fmt.Sprintf(" verify-%v-%s", ok, errCls(err))
 			p.HasCertificate(cert)
 		}
+		if err == nil {
+			// re-serialising what was parsed: the signed attributes of every signer entry
+			for _, si := range p.SignerInfo {
+				if si.AuthenticatedAttributes != nil {
+					out += fmt.Sprintf(" attrs-%d", len(si.AuthenticatedAttributes.Marshal()))
+				}
+			}
+		}
 		au, err := authenticode.ParseAuthenticode(blob)
 		out += " auth-" + errCls(err)
 		if err == nil && cert != nil {
